@@ -56,6 +56,8 @@ def check_result(res, predicted, source, emit, case, tp_format="vtl", rop=True):
             mech = "shape/" + probs[0][0]
             if probs[0][0] == "null-in-non-nullable" and name.startswith("DS_nvl"):
                 mech += "/nvl-with-nullable-replacement"        # results named DS_nvl* come from the nvl statements of the type-mix workload
+            if isinstance(case, dict) and case.get("case_variant_names") and probs[0][0] == "column-order-or-set":
+                mech += "/script-with-case-variant-names"           # the systemic C29 defect seen through a corpus script
             if source == "gen:viral-chain" and probs[0][0] == "column-order-or-set" and isinstance(obj, Dataset) and obj.data is not None:
                 missing = sorted(set(obj.components) - set(obj.data.columns))
                 extra = sorted(set(obj.data.columns) - set(obj.components))
@@ -90,7 +92,18 @@ def run_corpus_case(c, emit, rop):
         emit({"v": "viol", "b": f"corpus/{c['area']}", "mech": "semantic-analysis-rejects-what-run-accepts",
               "what": f"{c['id']}: semantic_analysis raised {type(pred).__name__}: {str(pred)[:160]}", "case": {"id": c["id"], "corpus": c, "rop": rop}})
         return
-    check_result(res, pred, f"corpus:{c['area'].split('/')[0]}", emit, {"id": c["id"], "corpus": c, "rop": rop}, rop=rop)
+    # names of the script and of the input structures that differ only in letter case: anomalies of such cases belong to C29
+    import re
+    words = set(re.findall(r"[A-Za-z_][A-Za-z0-9_]*", kw["script"] if isinstance(kw.get("script"), str) else ""))
+    try:
+        sts = kw.get("data_structures") or []
+        for s_ in (sts if isinstance(sts, list) else [sts]):
+            for d in (s_.get("datasets", []) if isinstance(s_, dict) else []):
+                words |= {x.get("name") for x in d.get("DataStructure", []) if x.get("name")}
+    except Exception:  # noqa: BLE001
+        pass
+    cv = len({w.lower() for w in words}) < len(words)
+    check_result(res, pred, f"corpus:{c['area'].split('/')[0]}", emit, {"id": c["id"], "corpus": c, "rop": rop, "case_variant_names": cv}, rop=rop)
 
 
 def run_shard(spec, emit):
